@@ -496,8 +496,19 @@ def evaluate(ctx, res, label, case, data, model, judge):
     res.count('probes.activate', len(data['activates']))
     res.count('probes.datainfo', len(data['dichecks']))
     res.count('probes.import', len(data['imports']))
+    described = {(m['name'], a['name']): a for m in data['report1'] for a in m['accs']}
     for st in rec['steps']:
-        res.count('reply.' + (st['obs']['reply'][0] if st['obs']['reply'][0] != 'error' else st['obs']['reply'][1]))
+        rep = st['obs']['reply'][0] if st['obs']['reply'][0] != 'error' else st['obs']['reply'][1]
+        res.count('reply.' + rep)
+        if st['req'][0] == 'do' and st['req'][1] and ':' in st['req'][1]:
+            ad = described.get(tuple(st['req'][1].split(':', 1)))
+            target = 'undescribed' if ad is None else 'parameter' if ad['kind'] == 'param' else \
+                'command-with-argument' if ad['argument'] else 'command-without-argument'
+            payload = 'null' if st['req'][2] is None else 'empty' if st['req'][2] in ('0', '0.0', 'false', '""', '[]', '{}') else 'other'
+            res.count('do.%s.payload-%s.%s' % (target, payload, 'executed' if st['obs']['calls'] else rep))
+    for m in rec['node']['modules']:
+        for row in (m.get('init') or {}).get('cfg', []):
+            res.count('cfg.module-property.' + row[0])
     ro = sum(1 for m in data['report1'] for a in m['accs'] if a['readonly'] is True)
     const = sum(1 for m in data['report1'] for a in m['accs'] if a['constant'] is not None)
     res.count('described.readonly', ro)
